@@ -174,9 +174,25 @@ def est_model(rng, full=True):
     return isn.EstimationModel(bias_sd=1e-2, noise=1e-3)
 
 
+def _totuple(x):
+    return tuple(_totuple(v) for v in x) if isinstance(x, list) else x
+
+
 def as_form(arr, form, columns=None):
+    """form = array | list | tuple | series | frame, optionally followed by '+ival' (values rounded to integers, float dtype)
+    or '+int' (same values, integer dtype / Python ints): an integer-typed argument is one more accepted form of an
+    integer-valued one."""
+    integer = False
+    if form.endswith('+ival'):
+        arr, form = np.rint(np.asarray(arr, float)), form[:-5]
+    elif form.endswith('+int'):
+        arr, form, integer = np.rint(np.asarray(arr, float)).astype(np.int64), form[:-4], True
     if form == 'list':
         return np.asarray(arr).tolist()
+    if form == 'tuple':
+        return _totuple(np.asarray(arr).tolist())
+    if integer:
+        return np.array(arr)
     if form == 'frame' and columns is not None and np.ndim(arr) == 2:
         return pd.DataFrame(np.asarray(arr), columns=columns)
     if form == 'series' and columns is not None and np.ndim(arr) == 1:
@@ -487,10 +503,12 @@ def registry():
                     data = pd.DataFrame(rng.randn(len(tr), 3), index=tr.index, columns=['VX', 'VY', 'VZ'])
                     m = measurements.BodyVelocity(data, 0.2)
                 else:
-                    m = getattr(measurements, cls_name)(tr.copy(), 1.5, as_form(np.array([1.0, -0.5, 0.3]), form))
+                    arm = None if rng.rand() < 0.3 else as_form(np.array([1.0, -0.5, 0.3]), form)
+                    m = getattr(measurements, cls_name)(tr.copy(), 1.5, arm)
                 em = error_model.InsErrorModel(bool(rng.rand() < 0.5))
                 p = tr.iloc[3].copy()
-                p['rate_x'], p['rate_y'], p['rate_z'] = 0.1, 0.2, -0.1
+                if rng.rand() < 0.5:                    # a plain trajectory row (no body rates) is an accepted pva too
+                    p['rate_x'], p['rate_y'], p['rate_z'] = 0.1, 0.2, -0.1
                 return (lambda m_, t_, p_, em_: (m_.compute_matrices(t_, p_, em_), m_.compute_matrices(t_ + 0.03, p_, em_))), [m, float(tr.index[3]), p, em], {}
             return b
         R[f'measurements.{cls_name}.compute_matrices'] = dict(build=mk(), forms=('array', 'list'), kind=None)
@@ -530,8 +548,17 @@ def registry():
 
     @reg('sim.generate_sine_velocity_motion', forms=('array', 'list'), kind='traj_imu')
     def _(rng, form):
-        return sim.generate_sine_velocity_motion, [0.1, 5.0, as_form([50.0, 60.0, 100.0], form), as_form([3.0, -2.0, 0.1], form)], \
-            {'velocity_change_amplitude': as_form([1.0, 1.0, 0.1], form), 'sensor_type': str(rng.choice(['rate', 'increment']))}
+        lla0 = [rng.uniform(-80, 80), rng.uniform(-180, 180), rng.uniform(-500, 20000)]
+        vel = rng.uniform(-30, 30, 3) * [1, 1, 0.2]
+        amp = [rng.uniform(0, 3, 3) * [1, 1, 0.1], np.zeros(3), np.array([0.0, rng.uniform(0.5, 3), 0.0])][rng.randint(3)]
+        kw = {'velocity_change_amplitude': as_form(amp, form), 'sensor_type': str(rng.choice(['rate', 'increment']))}
+        k = rng.randint(4)
+        if k == 1:
+            del kw['velocity_change_amplitude']                 # documented default 0
+        elif k == 2:
+            kw['velocity_change_period'] = float(rng.uniform(2, 100))
+            kw['velocity_change_phase_offset'] = as_form(rng.uniform(-180, 180, 3), form)
+        return sim.generate_sine_velocity_motion, [float(rng.choice([0.1, 0.05])), float(rng.choice([5.0, 3.0])), as_form(lla0, form), as_form(vel, form)], kw
 
     for g, cols in (('generate_position_measurements', ['lat', 'lon', 'alt']), ('generate_ned_velocity_measurements', ['VN', 'VE', 'VD']),
                     ('generate_body_velocity_measurements', ['VX', 'VY', 'VZ'])):
@@ -699,16 +726,39 @@ def entry_strategy():
     return st.fixed_dictionaries({'entry': st.sampled_from(list(range(len(names())))), 'sub': st.integers(0, 2 ** 31 - 1), 'form': st.integers(0, 5)})
 
 
+INT_ENTRIES = ('earth.principal_radii', 'earth.gravity', 'earth.gravity_n', 'earth.gravitation_ecef', 'earth.curvature_matrix',
+               'earth.rate_n', 'transform.lla_to_ecef', 'transform.ecef_to_lla', 'transform.perturb_lla', 'transform.mat_en_from_ll',
+               'transform.mat_from_rph', 'util.mm_prod', 'util.mm_prod_symmetric', 'util.mv_prod', 'util.skew_matrix',
+               'util.compute_rms', 'util.to_180_range', 'sim.generate_sine_velocity_motion')
+
+
+def entry_forms(name):
+    """Declared forms, plus tuples wherever lists are accepted, plus integer-typed arguments for the entries whose arguments
+    stay valid when rounded to integers."""
+    f = tuple(get_registry()[name]['forms'])
+    if 'list' in f:
+        f += ('tuple',)
+        if name in INT_ENTRIES:
+            f += ('array+int', 'list+int')
+    return f
+
+
+def base_form(name, form):
+    b = get_registry()[name]['forms'][0]
+    return b + '+ival' if form.endswith('+int') else b
+
+
 def run_entry(case, ctx):
     nm = names()
     name = case.get('name') or nm[case['entry'] % len(nm)]      # saved replays pin the callable by name
     e = get_registry()[name]
-    form = e['forms'][case['form'] % len(e['forms'])]
+    forms = entry_forms(name)
+    form = forms[case['form'] % len(forms)]
     ctx.label(f'callable={name}', f'form={form}')
     out, args = execute(ctx, name, case['sub'], form)
     # forms agree
-    if len(e['forms']) > 1:
-        base = e['forms'][0]
+    if len(forms) > 1:
+        base = base_form(name, form)
         if form != base:
             fn0, args0, kw0 = e['build'](np.random.RandomState(case['sub']), base)
             out0 = fn0(*args0, **kw0)
@@ -721,7 +771,7 @@ def run_entry(case, ctx):
 def first_item(x):
     if isinstance(x, (pd.DataFrame, pd.Series)):
         return x.iloc[0]
-    if isinstance(x, (list, np.ndarray)):
+    if isinstance(x, (list, tuple, np.ndarray)):
         return x[0]
     return x
 
@@ -748,14 +798,14 @@ def check_single(ctx, name, sub, form, out_stacked):
 
 
 def sweep_strategy():
-    return st.fixed_dictionaries({'sub': st.integers(0, 2 ** 31 - 1), 'form': st.integers(0, 5)})
+    return st.fixed_dictionaries({'sub': st.integers(0, 2 ** 31 - 1), 'form': st.integers(0, 11)})
 
 
 def run_sweep(case, ctx):
     """Every registry entry once (so that no entry depends on the luck of the draw in a quick run)."""
     for name in names():
-        e = get_registry()[name]
-        form = e['forms'][case['form'] % len(e['forms'])]
+        forms = entry_forms(name)
+        form = forms[case['form'] % len(forms)]
         out, _ = execute(ctx, name, case['sub'], form)
         check_single(ctx, name, case['sub'], form, out)
     ctx.label(f'entries={len(names())}')
